@@ -604,7 +604,8 @@ fn shapes_cases(thorough: bool) -> Vec<Case> {
     let scal: &[bool] = &[false, true];
     for m in 1..=3usize {
         for p in 1..=3usize {
-            for n in m..=(m + p + 3) {
+            // from a single sample on: fewer samples than basis functions as well
+            for n in 1..=(m + p + 3) {
                 for &f32_ in scal {
                     for prov in [Prov::Hand, Prov::Built] {
                         for w in [WKind::None, WKind::Ramp] {
@@ -613,6 +614,9 @@ fn shapes_cases(thorough: bool) -> Vec<Case> {
                                     continue;
                                 }
                                 v.push(Case { fam: Family::GenProd { m, p, inc: default_inc(m, p) }, n, prov, par: false, w, noise_variant: 1, level: 1e-3, amp: 1.0, solver, f32_, eps: 0.0 });
+                                if prov == Prov::Hand && (n < m || solver == 0) {
+                                    v.push(Case { fam: Family::GenProd { m, p, inc: default_inc(m, p) }, n, prov, par: true, w, noise_variant: 1, level: 1e-3, amp: 1.0, solver, f32_, eps: 0.0 });
+                                }
                             }
                         }
                     }
@@ -649,7 +653,7 @@ fn shapes_cases(thorough: bool) -> Vec<Case> {
     }
     for fam in fams {
         let (m, p) = (fam.m(), fam.p());
-        for n in m..=(m + p + 3) {
+        for n in 1..=(m + p + 3) {
             for &f32_ in scal {
                 for solver in [0u8, 1, 2, 3] {
                     for par in [false, true] {
